@@ -1459,6 +1459,13 @@ def root_causes(ir, res=None) -> list:
                 tags.add("rc:or-in-where-over-join")
             if len(q["joins"]) >= 2 and any(j["side"] == "RIGHT" for j in q["joins"]):
                 tags.add("rc:where-over-chained-right-join")
+        # the same rule (pushdown_predicates.pushdown_dnf) also pushes one branch of an OR that sits in a JOIN's ON
+        for j in q["joins"]:
+            if j["on"] is not None:
+                on_ors = []
+                O._walk_expr(j["on"], lambda e: on_ors.append(e) if e[0] == "or" else None, lambda _q: None)
+                if on_ors:
+                    tags.add("rc:or-in-where-over-join")
         for j in q["joins"]:
             if j["side"] == "RIGHT" and j["on"] is not None:
                 cols = []
